@@ -70,7 +70,11 @@ func famRetry(w *World) {
 	// documented loop does not look at the deadline: it goes on while the policy allows,
 	// every later attempt failing at once with whatever an expired context gives it.
 	lateBlock := len(retryPolicies) * ecCount * len(retryMaxAttempts) * 2 * hows
-	total := base + lateBlock
+	// a third block: several RunWithRetry invocations at once on one channel (after one that
+	// ended on an error the policy does not retry, or not): each keeps its own attempt
+	// numbers and its own set of tried peers
+	concBlock := len(retryPolicies) * 2 * 3
+	total := base + lateBlock + concBlock
 	if w.cfg.Case == -2 {
 		w.Probes["enum.cases"] = total
 		return
@@ -78,6 +82,10 @@ func famRetry(w *World) {
 	c := w.cfg.Case
 	if c < 0 {
 		c = scn(total)
+	}
+	if c >= base+lateBlock {
+		w.retryConcurrent(c - base - lateBlock)
+		return
 	}
 	x := c
 	late := c >= base
@@ -387,4 +395,127 @@ func (w *World) retryLateVerdict(policy, class, maxA int, perAttempt bool, npeer
 	if err == nil {
 		w.violate("C17", "final-result", "%s: RunWithRetry returned success", desc)
 	}
+}
+
+// retryConcurrent: case k of the third block.
+func (w *World) retryConcurrent(k int) {
+	n := 2 + k%3
+	k /= 3
+	pre := k%2 == 1
+	k /= 2
+	policy := k
+	w.drawSchedule(false)
+	w.linkDefaults()
+	w.describe("retry concurrent: policy=%s invocations=%d preceded-by-non-retriable=%v", retryPolicyNames[policy], n, pre)
+	w.eval("C17.case")
+	cli := w.addNode(NodeOpts{Name: "c0", Service: "client0", Host: "10.0.3.1", Conn: w.connOptsBig()})
+	seen := map[string]int{}
+	sc := cli.Ch.GetSubChannel("svc")
+	for i := 0; i < 3; i++ {
+		srv := w.addNode(NodeOpts{Name: fmt.Sprintf("s%d", i), Service: "svc", Host: fmt.Sprintf("10.0.2.%d", i+1), Port: 5000 + i, Conn: w.connOptsBig()})
+		srv.Ch.Register(tchannel.HandlerFunc(func(ctx context.Context, call *tchannel.InboundCall) {
+			a2, _ := readArg(call.Arg2Reader())(0, 0)
+			readArg(call.Arg3Reader())(0, 0)
+			tag := string(a2)
+			seen[tag]++
+			resp := call.Response()
+			switch {
+			case tag == "nr":
+				resp.SendSystemError(tchannel.NewSystemError(tchannel.ErrCodeBadRequest, "not retried under any policy"))
+			case seen[tag] == 1:
+				resp.SendSystemError(tchannel.ErrServerBusy)
+			default:
+				writeArg(resp.Arg2Writer())(a2, 0)
+				writeArg(resp.Arg3Writer())([]byte("ok"), 0)
+			}
+		}), "m")
+		sc.Peers().Add(srv.HostPort)
+	}
+	type att struct {
+		num  int
+		prev []string
+		peer string
+	}
+	invoke := func(tag string) ([]att, error) {
+		ctx, cancel := tchannel.NewContextBuilder(10 * time.Second).SetRetryOptions(&tchannel.RetryOptions{MaxAttempts: 4, RetryOn: retryPolicies[policy]}).Build()
+		defer cancel()
+		var atts []att
+		err := cli.Ch.RunWithRetry(ctx, func(ctx context.Context, rs *tchannel.RequestState) error {
+			a := att{num: rs.Attempt, prev: sortedKeys(rs.SelectedPeers)}
+			call, err := sc.BeginCall(ctx, "m", &tchannel.CallOptions{RequestState: rs})
+			if err == nil {
+				a.peer = call.RemotePeer().HostPort
+				if err = writeArg(call.Arg2Writer())([]byte(tag), 0); err == nil {
+					err = writeArg(call.Arg3Writer())(nil, 0)
+				}
+				if err == nil {
+					_, err = readArg(call.Response().Arg2Reader())(0, 0)
+				}
+				if err == nil {
+					_, err = readArg(call.Response().Arg3Reader())(0, 0)
+				}
+			}
+			atts = append(atts, a)
+			sleep(time.Duration(app(3)) * w.Grid) // the invocations overlap in time
+			return err
+		})
+		return atts, err
+	}
+	if pre {
+		atts, err := invoke("nr")
+		if len(atts) != 1 || err == nil {
+			w.violate("C17", "attempt-count", "a bad-request error was followed by %d attempts (err=%s); no policy retries it", len(atts), errStr(err))
+		}
+	}
+	results := make([][]att, n)
+	errs := make([]error, n)
+	var fs []func()
+	for i := 0; i < n; i++ {
+		i := i
+		fs = append(fs, func() { results[i], errs[i] = invoke(fmt.Sprintf("t%d", i)) })
+	}
+	w.tasks(fs...)
+	w.probe("ops.done")
+	never := retryPolicyNames[policy] == "never"
+	for i, atts := range results {
+		desc := fmt.Sprintf("policy=%s, invocation %d of %d concurrent ones (preceded by a non-retriable failure: %v)", retryPolicyNames[policy], i+1, n, pre)
+		want := 2
+		if never {
+			want = 1
+		}
+		if len(atts) != want {
+			w.violate("C17", "attempt-count", "%s: the function ran %d times, want %d (first attempt busy, second succeeds)", desc, len(atts), want)
+		}
+		if (errs[i] == nil) == never {
+			w.violate("C17", "final-result", "%s: RunWithRetry returned %s", desc, errStr(errs[i]))
+		}
+		tried := map[string]bool{}
+		for j, a := range atts {
+			if a.num != j+1 {
+				w.violate("C17", "attempt-number", "%s: invocation's attempt %d saw Attempt=%d", desc, j+1, a.num)
+			}
+			for _, p := range a.prev {
+				if !tried[p] {
+					w.violate("C17", "foreign-selected-peer", "%s: attempt %d sees %s among the peers already tried, which this request never tried (tried: %v)", desc, j+1, p, sortedKeys(tried))
+				}
+			}
+			for _, hp := range sortedKeys(tried) {
+				found := false
+				for _, p := range a.prev {
+					found = found || p == hp
+				}
+				if !found {
+					w.violate("C17", "selected-peers-missing", "%s: attempt %d does not see %s, which this request tried before", desc, j+1, hp)
+				}
+			}
+			if a.peer != "" {
+				if tried[a.peer] {
+					w.violate("C17", "tried-peer-reused", "%s: attempt %d went to %s again although untried peers exist", desc, j+1, a.peer)
+				}
+				tried[a.peer] = true
+				tried[hostOf(a.peer)] = true
+			}
+		}
+	}
+	w.quiesce(2*time.Second, true)
 }
